@@ -83,6 +83,9 @@ PROPS = {
                 ("h_next_tag_soup_2", "get_next_tag_or_comment from any cursor position on every 2-lexeme soup with optional line breaks", True),
                 ("h_next_tag_soup_3", "get_next_tag_or_comment from any cursor position on every 3-lexeme soup", False),
             ]
+        ] + [
+            {"engine": "E2", "module": "lib", "harness": "h_ifdata_empty_sequence", "functions": ["ifdata::parse_ifdata_item", "ifdata::parse_ifdata_taggedstruct"],
+             "bound": "3 A2ML definitions whose sequence element can match zero tokens + one IF_DATA block: loading terminates", "timeout": 300, "extra_modules": ["tokenizer"], "max_steps": 600000},
         ],
     },
     "C13": {
@@ -177,6 +180,9 @@ PROPS = {
                 ("dec", "u64", "optional '-' + '18446744073709' + 7 symbolic digits (around 2^64)", True), ("dec", "i64", "optional '-' + '9223372036854' + 7 symbolic digits (around 2^63)", True),
                 ("dec", "u64b", "optional '-' + 9 symbolic digits", False),
             ]
+        ] + [
+            {"engine": "E2", "module": "lib", "harness": "h_ifdata_uninterpreted", "functions": ["ifdata::parse_unknown_ifdata_start", "ifdata::parse_unknown_ifdata", "ifdata::parse_unknown_taggedstruct", "a2ml::GenericIfData::write_item"],
+             "bound": "8 payloads of an IF_DATA no specification describes: small / negative / hex / > 32 bit decimal / > 32 bit hex / float / string+ident / nested blocks", "timeout": 300, "extra_modules": ["tokenizer"]},
         ],
     },
     "C01": {
@@ -197,6 +203,9 @@ PROPS = {
             {"engine": "E2", "module": "parser", "harness": "h_str_fixpoint_%d" % n, "functions": ["tokenizer::tokenize_core", "parser::ParserState::get_string", "parser::unescape_string", "writer::Writer::add_quoted_string"],
              "bound": "every accepted string token with %d inner bytes over the same alphabet: second load/write cycle is a fixpoint" % n, "timeout": 300, "extra_modules": ["tokenizer"], "quick": n <= 3}
             for n in (2, 3, 4)
+        ] + [
+            {"engine": "E2", "module": "lib", "harness": "h_ifdata_definitions", "msg_prefix": "C01", "functions": ["load_from_string", "tokenizer::handle_a2ml", "A2ml::stringify", "a2ml::GenericIfData::write", "A2lFile::write_to_string"],
+             "bound": "5 A2ML definitions x {conforming, deviating IF_DATA} x {LF, CRLF}: reload equal, second write identical", "timeout": 400, "extra_modules": ["tokenizer"]},
         ],
     },
     "C07": {
@@ -314,6 +323,18 @@ PROPS = {
             {"engine": "E2", "module": "parser", "harness": h, "functions": ["parser::ParserState::handle_unknown_taggedstruct_tag", "parser::ParserState::error_or_log"],
              "bound": "unknown tag + every 1..3-lexeme soup, strictness symbolic: strict never accepts", "timeout": 300, "extra_modules": ["tokenizer"]}
             for h in ("h_unknown_soup_1", "h_unknown_soup_2", "h_unknown_soup_3")
+        ],
+    },
+    "C18": {
+        "files": ["a2lfile/src/a2ml.rs", "a2lfile/src/ifdata.rs", "a2lfile/src/specification.rs", "a2lfile/src/lib.rs", "a2lfile/src/tokenizer.rs"],
+        "trusted": T_STD,
+        "assumptions": ["five A2ML definitions (struct with all scalar kinds / array / enum, taggedunion with block sequence, taggedstruct with repeated and optional members, arrays + 64 bit scalars, named struct reference) each with one conforming instance and one single-token deviation, LF and CRLF line ends; definition supplied in-file only",
+                        "'all A2ML definitions' is not claimed - the set is a fixed bounded family"],
+        "jobs": [
+            {"engine": "E2", "module": "lib", "harness": "h_ifdata_definitions", "msg_prefix": "C18", "functions": ["load_from_string", "tokenizer::handle_a2ml", "a2ml::parse_a2ml", "ifdata::parse_ifdata", "ifdata::parse_ifdata_from_spec", "ifdata::parse_ifdata_item", "ifdata::parse_ifdata_taggedstruct", "ifdata::parse_unknown_ifdata_start", "a2ml::GenericIfData::write", "A2lFile::ifdata_cleanup"],
+             "bound": "5 definitions x {conforming, deviating} x {LF, CRLF}", "timeout": 400, "extra_modules": ["tokenizer"], "validate": 20},
+            {"engine": "E2", "module": "lib", "harness": "h_ifdata_empty_sequence", "functions": ["ifdata::parse_ifdata_item"],
+             "bound": "3 definitions whose sequence element can match zero tokens, one IF_DATA block: loading terminates", "timeout": 300, "extra_modules": ["tokenizer"], "max_steps": 600000},
         ],
     },
 }
